@@ -13,7 +13,10 @@ Hosts == {"empty", "localhost", "other"}
 Ports == {"none", "port"}
 Queries == {"none", "query"}
 Frags == {"none", "frag"}
-URLs == [scheme : Schemes, user : Users, host : Hosts, port : Ports, query : Queries, frag : Frags]
+\* the path itself: plain; with a ".." that follows a symbolic link to a directory (the file system, not string
+\* surgery, decides what that means); a relative "./stdout" (a file in the current directory, not the process stream)
+Paths == {"plain", "dotdot-after-symlink", "dot-slash-stdout"}
+URLs == [scheme : Schemes, user : Users, host : Hosts, port : Ports, query : Queries, frag : Frags, path : Paths]
 \* a URL with user info or a port needs an authority, which needs a host or "//"; all combinations are
 \* expressible as text except: scheme "none" with an authority is written "//host/path"
 
@@ -24,7 +27,7 @@ EncoderNames == {"empty", "fresh", "taken-json", "taken-console", "taken-custom"
 
 VARIABLES kind, url, name, verdict
 vars == <<kind, url, name, verdict>>
-AnyURL == [scheme |-> "none", user |-> "none", host |-> "empty", port |-> "none", query |-> "none", frag |-> "none"]
+AnyURL == [scheme |-> "none", user |-> "none", host |-> "empty", port |-> "none", query |-> "none", frag |-> "none", path |-> "plain"]
 Init == /\ kind \in {"url", "scheme", "encoder"}
         /\ url \in (IF kind = "url" THEN URLs ELSE {AnyURL})
         /\ name \in (CASE kind = "scheme" -> SchemeNames [] kind = "encoder" -> EncoderNames [] OTHER -> {"empty"})
